@@ -67,6 +67,10 @@ Canon(p, c) == LET I == {i \in DOMAIN p.same : p.same[i].c = c} IN
 FirstIdx(s, P(_)) == LET I == {i \in DOMAIN s : P(s[i])} IN
                      IF I = {} THEN 0 ELSE CHOOSE i \in I : \A j \in I : i <= j
 DropAt(s, i) == SubSeq(s, 1, i - 1) \o SubSeq(s, i + 1, Len(s))
+\* a chord action may hold a layer ((multi <key> (layer-while-held l1)), chord.ly); a key whose meaning differs on that
+\* layer (keys[i].ol # 0: its output there) shows whether the layer is active when its press is processed
+IndOutL(p, c) == LET i == FirstIdx(p.keys, LAMBDA k : k.c = c) IN IF i = 0 THEN 0 ELSE p.keys[i].ol
+KeyOfOutL(p, o) == LET i == FirstIdx(p.keys, LAMBDA k : k.ol = o /\ o # 0) IN IF i = 0 THEN 0 ELSE p.keys[i].c
 IndOut(p, c) == LET i == FirstIdx(p.keys, LAMBDA k : k.c = c) IN IF i = 0 THEN 0 ELSE p.keys[i].o
 KeyOfOut(p, o) == LET i == FirstIdx(p.keys, LAMBDA k : k.o = o /\ o # 0) IN IF i = 0 THEN 0 ELSE p.keys[i].c
 ChordOfOut(p, o) == FirstIdx(p.chords, LAMBDA ch : ch.o = o /\ o # 0)
@@ -97,7 +101,7 @@ Decomp(p, g) ==
 
 MonInit(p) ==
   [p |-> p,
-   pend |-> <<>>,     \* presses not yet accounted for, in arrival order: [c, xr, ly, sk, hid]
+   pend |-> <<>>,     \* presses not yet accounted for, in arrival order: [c, xr, ly, sk, hid, cl]
                       \*   xr = keys released (input) since this press arrived; ly = layer it was made on (-1 unknown);
                       \*   sk = a later press was delivered before it; hid = chord that may have consumed it unseen
    acts |-> <<>>,     \* chord actions currently held: [ci, rem, all, chk, due, useen]
@@ -135,7 +139,14 @@ MonIn(m, r) ==
                     !.pend = [i \in DOMAIN @ |-> [@[i] EXCEPT !.ly = 0 - 1]],
                     !.gst = "none", !.g = <<>>]
     ELSE IF r.e = "d"
-    THEN LET m1 == [m0 EXCEPT !.pend = Append(@, [c |-> c, xr |-> {}, ly |-> m.lay, sk |-> FALSE, hid |-> 0])]
+    THEN LET \* events are processed in arrival order, so the chord layer this press meets is decided by the releases
+             \* that arrived before it: 1 = a layer-holding chord action has a participant still held (release rule: the
+             \* action lasts until then), 0 = no such chord is held or pending, -1 = no claim
+             LA == {j \in DOMAIN m.acts : p.chords[m.acts[j].ci].ly}
+             cl == IF \E j \in LA : m.acts[j].chk /\ m.acts[j].rem # {} THEN 1
+                   ELSE IF LA # {} \/ m.gst # "none" \/ m.exp # <<>> \/ \E i \in DOMAIN m.pend : IsPart(p, m.pend[i].c) THEN 0 - 1
+                   ELSE 0
+             m1 == [m0 EXCEPT !.pend = Append(@, [c |-> c, xr |-> {}, ly |-> m.lay, sk |-> FALSE, hid |-> 0, cl |-> cl])]
          IN IF m.gst = "none"
             THEN IF Settled(m) /\ IsPart(p, c) /\ m.lay >= 0 /\ (p.ver = 1 \/ CanExtend(p, {c}, m.lay))
                  THEN [m1 EXCEPT !.gst = "open", !.g = <<c>>, !.el = 0, !.term = "none", !.arr = TRUE]
@@ -219,6 +230,10 @@ Individual(m, kc, o) ==
   THEN Fail(m, "C09 H4: keys delivered out of their original order")
   ELSE IF ~ExpOk(m, o, "")
   THEN Fail(m, "C09 H1/H2: wrong outcome for the pressed key set (individual key instead of the defined chord / sub-chord)")
+  ELSE IF IndOutL(m.p, kc) # 0 /\ o = IndOut(m.p, kc) /\ m.pend[i].cl = 1
+  THEN Fail(m, "C09 H3: the layer held by a chord action is gone while a participant of the chord is still held (a later key got its base-layer meaning)")
+  ELSE IF IndOutL(m.p, kc) # 0 /\ o = IndOutL(m.p, kc) /\ m.pend[i].cl = 0
+  THEN Fail(m, "C09 H3: the layer of a chord action is active although no chord holds it")
   ELSE LET before == SubSeq(m.pend, 1, i - 1)
            after == SubSeq(m.pend, i + 1, Len(m.pend))
            j == FirstIdx(after, LAMBDA e : e.c = kc)
@@ -246,7 +261,7 @@ Scan(m, out) ==
            p == m.p
        IN IF e[1] = "d"
           THEN LET ci == ChordOfOut(p, e[2])
-                   kc == KeyOfOut(p, e[2])
+                   kc == IF KeyOfOut(p, e[2]) # 0 THEN KeyOfOut(p, e[2]) ELSE KeyOfOutL(p, e[2])
                IN IF ci # 0 THEN Scan(ActivateChord(m, ci), Tail(out))
                   ELSE IF kc # 0 THEN Scan(Individual(m, kc, e[2]), Tail(out))
                   ELSE Scan(m, Tail(out))
